@@ -13,6 +13,7 @@ import (
 func ImpliedSchema(spec Spec) *hcl.BodySchema {
 	var attrs []hcl.AttributeSchema
 	var blocks []hcl.BlockHeaderSchema
+	attrIdx := map[string]int{}
 
 	// visitSameBodyChildren walks through the spec structure, calling
 	// the given callback for each descendent spec encountered. We are
@@ -20,7 +21,18 @@ func ImpliedSchema(spec Spec) *hcl.BodySchema {
 	var visit visitFunc
 	visit = func(s Spec) {
 		if as, ok := s.(attrSpec); ok {
-			attrs = append(attrs, as.attrSchemata()...)
+			// The same attribute may be needed by several specs (e.g. both
+			// arms of a DefaultSpec), but a body schema must name it once:
+			// a second entry would find the attribute already consumed and
+			// report it missing if it is required.
+			for _, a := range as.attrSchemata() {
+				if i, seen := attrIdx[a.Name]; seen {
+					attrs[i].Required = attrs[i].Required || a.Required
+					continue
+				}
+				attrIdx[a.Name] = len(attrs)
+				attrs = append(attrs, a)
+			}
 		}
 
 		if bs, ok := s.(blockSpec); ok {
